@@ -3,8 +3,8 @@
    Proved for ALL choice sequences: every source is connected exactly once (both modes), no destination exceeds
    max_connects (uneven mode), within a round no destination is used twice (even mode: totals differ by at most one),
    the returned set is exactly the set of connected destinations, connect_many_to_one.
-   Not proved (C18_partial): completion without error whenever len(src) <= len(dest)*max_connects (checked by the
-   correspondence over all sizes 0..7 x 1..6 x max_connects and by the monitor; it failed before the repair of F3). *)
+   and completion: whenever the helper's own precondition len(src) <= len(dest)*max_connects holds, the internal
+   capacity assertion can never fire (capacity invariant; this is what failed before the repair of F3). *)
 From Coq Require Import List Bool Arith.
 Import ListNotations.
 From MV Require Import Ext.Util Ext.UtilP.
@@ -32,5 +32,12 @@ Theorem C18_many_to_one : forall src dest,
   map fst (connect_many_to_one src dest) = src /\ forall c, In c (connect_many_to_one src dest) -> snd c = dest.
 Proof. exact many_to_one_spec. Qed.
 Print Assumptions C18_many_to_one.
+Theorem C18_completes_when_feasible : forall choices src dest m, 0 < m -> NoDup dest ->
+  connect_randomly_uneven choices src dest (Some m) <> RAssert.
+Proof. exact randomly_never_asserts. Qed.
+Print Assumptions C18_completes_when_feasible.
+Theorem C18_completes_unbounded : forall choices src dest, dest <> [] -> connect_randomly_uneven choices src dest None <> RAssert.
+Proof. exact randomly_unbounded_never_asserts. Qed.
+Print Assumptions C18_completes_unbounded.
 Example C18_nonvacuous : connect_randomly_uneven [0; 0] [10; 11] [20; 21] (Some 1) = ROk [(10, 20); (11, 21)].
 Proof. vm_compute. reflexivity. Qed.
